@@ -351,6 +351,10 @@ namespace bloch::runtime {
         Value asDeclared(Value v, const RuntimeTypeInfo& declared) const;
         bool qubitStillNamed(int index, const Object* except) const;
         void recordTrackedFields(Object* obj);
+        // Lets the temporaries that produced 'result' go while a qubit handle in it is visible
+        // to the bookkeeping of released qubit indices (see qubitStillNamed).
+        Value settleResult(Value result, std::vector<Value>* args, Value* temporary,
+                           std::shared_ptr<Object>* receiver);
         void initStaticFields(RuntimeClass* cls);
         // Static field lookup through the class chain; initialises the owner's statics first if
         // that has not happened yet, so initialisation order follows use, not declaration order.
